@@ -4,6 +4,7 @@ import SdJwt.Lemmas.RestoreAll
 import SdJwt.Lemmas.MarkInv
 import SdJwt.Lemmas.EndToEnd
 import SdJwt.Lemmas.Example
+import SdJwt.Lemmas.Redact
 /-!
 # C02 — selective disclosure end to end: the verifier sees the original minus the redacted
 
@@ -116,3 +117,43 @@ example : Verifier.verify exRt (assemble "J" ["dg1"]) false =
     simp only [List.mem_cons, List.not_mem_nil, or_false] at hs
     subst hs
     exact ⟨⟨"dg1", some "a", .num 1 0⟩, by simp; exact ⟨by decide, rfl⟩, by simp [fromBase64, Rt.env, exRt]⟩
+
+/-- **What `Holder::build` keeps, in terms of the tree.** For the holder's path list of a
+conformant tree (one entry per marked node: its pointer and its disclosure) and ANY list `R` of
+redacted strings: an entry is kept iff its pointer is not in `R` and its node does not lie inside
+a marked node whose pointer is in `R`.  The string test `starts_with(q + "/")` is exactly the
+tree's ancestry (`starts_with_iff_under`: escaped segments contain no `/`, siblings have different
+segments). -/
+theorem C02_kept_tree (T : MJ) (wf : T.WF) (nd : T.allMarks.Nodup) (ps : List PathEntry)
+    (hps : HolderList T ps) (R : List String) (pe : PathEntry) :
+    pe ∈ keptEntries ps R ↔
+      pe ∈ ps ∧ pe.1 ∉ R ∧ ∀ q ∈ ps, q.1 ∈ R → pe.2.digest ∉ T.under q.2.digest :=
+  kept_iff_tree T wf nd ps hps R pe
+
+/-- **C02, the whole chain in the model: issuer → holder → `redact(R)` → `build` → verifier.**
+With the hypotheses of `C01_end_to_end` (unbound token): the holder obtains its path list `ps`;
+for ANY list `R` of strings to redact — disclosable pointers, pointers of non-disclosable claims,
+non-existent paths, near misses, nested and enclosing ones together — the verifier accepts what
+`Holder::build` keeps and returns the issued claims minus exactly the marked nodes whose pointer
+is in `R` and everything inside them (`notRedacted`), all else unchanged and in place. -/
+theorem C02_redact (rt : Rt) (mk : Nat → Option String → J → String)
+    (paths : List String) (addr : List (List String × String)) (ms : MMems) (Tn : MJ)
+    (ds : List SDisc) (decoys : Option (List String)) (jwt : String) (header : J)
+    (strs : List String) (R : List String) (policy : Bool)
+    (wf : (MJ.obj ms none).WF) (hplain : (MJ.obj ms none).digests = [])
+    (hk1 : "_sd_alg" ∉ ms.keys) (hk2 : "cnf" ∉ ms.keys)
+    (hp : ParsedAll paths addr) (h : markAll mk 0 addr (.obj ms none) = some (Tn, ds)) (hne : ds ≠ [])
+    (hdec : ∀ l, decoys = some l → l.Nodup ∧ (∀ g ∈ l, g ∉ Tn.digests))
+    (hsig : ∀ payload dsrc,
+      encode (MJ.obj ms none).payload paths mk decoys none = .ok (payload, dsrc) →
+      rt.jwtDecode jwt = .ok (header, payload))
+    (hstr : ∀ s ∈ strs, ∃ e ∈ ds,
+      fromBase64 (rt.env "sha-256") s = .ok ⟨s, e.digest, e.key, e.value⟩)
+    (hnd : (strs.map (rt.hash "sha-256")).Nodup)
+    (hall : ∀ e ∈ ds, ∃ s ∈ strs, rt.hash "sha-256" s = e.digest)
+    (hj : '~' ∉ jwt.toList) (hs : ∀ s ∈ strs, '~' ∉ s.toList) :
+    ∃ ps, Holder.verify rt (assemble jwt strs) = .ok (header, expectedClaims ms none, ps) ∧
+      Verifier.verify rt (assemble jwt (keptDisclosures ps R)) policy =
+        .ok (header, Tn.project (notRedacted Tn R)) :=
+  redact_verify_issued rt mk paths addr ms Tn ds decoys jwt header strs R policy wf hplain hk1 hk2 hp h
+    hne hdec hsig hstr hnd hall hj hs
